@@ -246,3 +246,56 @@ def make_field(chk, model, mesh, data, t=None):
     if t is not None:
         kw["t"] = t
     return it.call(get(chk, "flowdyn.field", "fdata"), [model, mesh, data], kw)
+
+
+# --------------------------------------------------------------------------------------
+# 1-D discretisation harness
+
+XNUM_1D = ["extrapol1", "extrapol2", "extrapolk", "centered", "fromm", "quick", "extrapol3", "muscl"]
+KAPPA = {"extrapol2": -1, "fromm": 0, "quick": Fraction(1, 2), "extrapol3": Fraction(1, 3), "centered": 1}
+
+
+def make_num(chk, name, kappa=None, limiter=None):
+    it = chk.interp
+    cls = get(chk, "flowdyn.xnum", name)
+    if name == "extrapolk":
+        return it.call(cls, [kappa if kappa is not None else z3.Real("kappa")], {})
+    if name == "muscl":
+        lim = get(chk, "flowdyn.xnum", limiter or "minmod")
+        return it.call(cls, [], {"limiter": lim})
+    return it.call(cls, [], {})
+
+
+def limiter_names(chk):
+    from pyvc.interp import PyFunc
+    m = chk.interp.load("flowdyn.xnum")
+    return [nm for nm in m.env.vars.get("__all__", [])
+            if isinstance(m.env.vars.get(nm), PyFunc) and m.env.vars[nm].defclass is None
+            and len(m.env.vars[nm].node.args.args) == 2]
+
+
+def num_configs(chk, with_limiters=True):
+    """(label, class name, limiter) for every 1-D reconstruction exported by xnum"""
+    out = []
+    for nm in XNUM_1D:
+        if nm == "muscl":
+            for lim in (limiter_names(chk) if with_limiters else ["minmod"]):
+                out.append(("muscl(%s)" % lim, nm, lim))
+        else:
+            out.append((nm, nm, None))
+    return out
+
+
+def make_disc1d(chk, model, mesh, num, flux=None, bcL=None, bcR=None):
+    it = chk.interp
+    per = {"type": "per"}
+    return it.call(get(chk, "flowdyn.modeldisc", "fvm1d"), [model, mesh, num],
+                   {"numflux": flux, "bcL": bcL or per, "bcR": bcR or per})
+
+
+def cons_state(kind, n, tag, info):
+    """admissible conservative data (list of arrays) built from a symbolic primitive state;
+    returns (Q, P)"""
+    from .C17 import cons_from_prim
+    P = prim_state(kind, n, tag)
+    return cons_from_prim(kind, P, info), P
